@@ -34,7 +34,7 @@ var checker = &vk.Checker[Case]{
 	ID: "C01",
 	Rule: "bitmaps drawn by style (zero, ones, mixed palette/density words, sparse, dense, islands, exact-count, tail, palette) and length class, " +
 		"plus a complete grid of all bitmaps of 0..4 (thorough 0..5) words over a 12-word palette; every position 0<=i<64*len is queried for bitmaps <= 64 words " +
-		"(otherwise all word boundaries +-1, 2-word windows and sampled positions) with Rank64 (plain, false, true index) and Rank128, against a bit-by-bit running count. " +
+		"(otherwise all word boundaries +-1, 2-word windows and sampled positions) with Rank64 (plain, false, true index) and Rank128, against a bit-by-bit running count; the indexes are checked and used only AFTER indexes of other bitmaps (other contents, shorter, longer) have been built, so a result that aliases library-owned memory is seen. " +
 		"Non-trivial: >= 2 words, contains both a 0 and a 1 (so a right-half Rank128 query with a non-zero own-word popcount is executed). Distinct by hash of the case.",
 	Check:    check,
 	Classify: classify,
@@ -104,6 +104,19 @@ func check(c Case) *vk.Failure {
 		idxF = bitmap.IndexRank64(words, false)
 		idxT = bitmap.IndexRank64(words, true)
 		idx128 = bitmap.IndexRank128(words)
+	}); f != nil {
+		return f
+	}
+
+	// A returned index belongs to the caller: building indexes of OTHER bitmaps afterwards (same
+	// length, shorter, longer; other contents) must not change it. The content checks below and all
+	// rank queries run after these calls, so a pooled / cached / shared result buffer shows up.
+	if f := vk.Try("index builders on other bitmaps", func() {
+		for _, other := range otherBitmaps(orig) {
+			_ = bitmap.IndexRank64(other)
+			_ = bitmap.IndexRank64(other, true)
+			_ = bitmap.IndexRank128(other)
+		}
 	}); f != nil {
 		return f
 	}
@@ -189,6 +202,20 @@ func check(c Case) *vk.Failure {
 		}
 	}
 	return nil
+}
+
+// otherBitmaps derives bitmaps that differ from w in content and in length (deterministically).
+func otherBitmaps(w []uint64) [][]uint64 {
+	inv := make([]uint64, len(w))
+	for i, x := range w {
+		inv[i] = ^x ^ uint64(i)*0x9e3779b97f4a7c15
+	}
+	longer := append(append([]uint64{}, inv...), 0x5555555555555555, ^uint64(0), 1)
+	out := [][]uint64{inv, longer}
+	if len(w) > 1 {
+		out = append(out, inv[:len(w)-1], inv[:len(w)/2])
+	}
+	return out
 }
 
 func itoa(i int32) string {
